@@ -1,5 +1,6 @@
 import TrackVerif.Geo.RealLemmas
 import TrackVerif.Geo.PropsC18
+import TrackVerif.Geo.Period
 /-
   C17 — Start-line detection fires exactly for positions within tolerance of the line.
   Property theorems only.  `tol_monotone` holds for any comparison (hence also for float64);
@@ -71,6 +72,37 @@ theorem end_caps (tol : ℝ) (q : OnLineQ ℝ) (h : q.d01 ≤ tol ∨ q.d02 ≤ 
   · simp [h]
   · by_cases h1 : q.d01 ≤ tol <;> simp [h1, h]
 
+/-- end to end, in degrees as the API takes them: a position whose great-circle distance to either
+    end of the line is within the tolerance is on the line — whatever the rest of the geometry,
+    in particular for a position that IS an end of the line and for a line that is a single point -/
+theorem near_an_end_is_hit (tol r lat0 lon0 lat1 lon1 lat2 lon2 : ℝ) (hr : 0 < r) (h0 : 0 ≤ tol)
+    (hπ : tol ≤ π * r)
+    (h : C18.gcAngle (lat0 * radians) (lon0 * radians) (lat1 * radians) (lon1 * radians) * r ≤ tol ∨
+         C18.gcAngle (lat0 * radians) (lon0 * radians) (lat2 * radians) (lon2 * radians) * r ≤ tol) :
+    onLine tol r lat0 lon0 lat1 lon1 lat2 lon2 = true := by
+  unfold onLine
+  apply end_caps
+  rcases h with h | h
+  · exact Or.inl ((end_cap_iff _ _ _ _ tol r hr h0 hπ).mpr h)
+  · exact Or.inr ((end_cap_iff _ _ _ _ tol r hr h0 hπ).mpr h)
+
+/-- a reading taken at one of the markers is on the line, for every tolerance and radius -/
+theorem position_at_an_end_is_hit (tol r lat1 lon1 lat2 lon2 : ℝ) :
+    onLine tol r lat1 lon1 lat1 lon1 lat2 lon2 = true ∧ onLine tol r lat2 lon2 lat1 lon1 lat2 lon2 = true := by
+  have hz : ∀ p l : ℝ, distanceHav p l p l = 0 := by
+    intro p l; simp [distanceHav, hav_real]
+  constructor
+  · unfold onLine
+    apply end_caps
+    left
+    show distanceHav _ _ _ _ ≤ hav (tol / r)
+    rw [hz]; exact hav_nonneg _
+  · unfold onLine
+    apply end_caps
+    right
+    show distanceHav _ _ _ _ ≤ hav (tol / r)
+    rw [hz]; exact hav_nonneg _
+
 /-- positions whose cross-track term exceeds the tolerance and that are outside both end caps are
     never on the line -/
 theorem far_cross_track (tol : ℝ) (q : OnLineQ ℝ) (h1 : tol < q.d01) (h2 : tol < q.d02) (h3 : tol < q.track) :
@@ -106,5 +138,23 @@ theorem endpoint_symmetry_partial (p0 l0 p1 l1 p2 l2 : ℝ) :
   refine ⟨rfl, rfl, ?_⟩
   show distanceHav p1 l1 p2 l2 = distanceHav p2 l2 p1 l1
   exact distanceHav_symm _ _ _ _
+
+/-- longitudes are periodic in 360 degrees and in nothing else the decision could see: adding
+    whole turns to any of the three longitudes, independently, changes nothing — a line at the
+    180th meridian, or one whose ends are written in different conventions (-180…180 and 0…360),
+    is a line like any other -/
+theorem longitude_period (tol r lat0 lon0 lat1 lon1 lat2 lon2 : ℝ) (k0 k1 k2 : ℤ) :
+    onLine tol r lat0 (lon0 + k0 * 360) lat1 (lon1 + k1 * 360) lat2 (lon2 + k2 * 360) =
+      onLine tol r lat0 lon0 lat1 lon1 lat2 lon2 := by
+  unfold onLine
+  simp only [rl_mul, deg_turns, onLineQ_turns]
+
+/-- the origin of longitude is irrelevant: moving the line and the position together around the
+    polar axis by any angle δ (not only whole or half turns) leaves the decision unchanged -/
+theorem longitude_origin (tol r lat0 lon0 lat1 lon1 lat2 lon2 δ : ℝ) :
+    onLine tol r lat0 (lon0 + δ) lat1 (lon1 + δ) lat2 (lon2 + δ) =
+      onLine tol r lat0 lon0 lat1 lon1 lat2 lon2 := by
+  unfold onLine
+  simp only [rl_mul, deg_shift, onLineQ_shift]
 
 end TrackVerif.C17
